@@ -86,17 +86,23 @@ Part(k, j) == { r \in ChunkRecs(k) : PartOf(k, r) = j }
 (* the record that triggers an injected worker / writer fault: first of the chunk *)
 FaultRec == (cfg.FaultChunk - 1) * CS + 1
 
+(* the scenario is a well-formed member of the explored domain *)
+CfgOK(x) == /\ x.L \in 1..MaxL /\ x.CS \in 1..MaxCS /\ x.W \in Ws /\ x.Pre \in Pres /\ x.Ow \in BOOLEAN
+            /\ x.FaultChunk \in Faults /\ x.EmptyCentre \in BOOLEAN /\ x.Where \in Wheres /\ x.Kill \in Kills /\ x.Buf \in BufSizes
+            /\ (x.FaultChunk > 0 => x.FaultChunk <= (x.L + x.CS - 1) \div x.CS)          \* fault in an existing chunk
+            /\ (x.FaultChunk = 0 => x.Where = "reader")
+            /\ (x.Kill # "none" => (x.FaultChunk = 0 /\ ~x.EmptyCentre /\ x.W > 1))
+(* everything but the choice of the scenario (the trace spec binds cfg to the recorded scenario instead) *)
+InitRest == /\ mpc = "start" /\ wpc = "notstarted" /\ c = 1 /\ pending = {} /\ q = <<>>
+            /\ file = [pp \in 0..(NP - 1) |-> {}] /\ buf = [pp \in 0..(NP - 1) |-> {}]
+            /\ dir = cfg.Pre /\ ids = (cfg.Pre = "old")
+            /\ wexit = 0 /\ outcome = "none" /\ loaded = "none" /\ werr = FALSE
 Init == /\ \E l \in 1..MaxL, cs \in 1..MaxCS, w \in Ws, pre \in Pres, ow \in BOOLEAN,
               f \in Faults, ec \in BOOLEAN, wh \in Wheres, kl \in Kills, bs \in BufSizes :
-             /\ (f > 0 => f <= (l + cs - 1) \div cs)          \* fault in an existing chunk
-             /\ (f = 0 => wh = "reader")
-             /\ (kl # "none" => (f = 0 /\ ~ec /\ w > 1))
              /\ cfg = [L |-> l, CS |-> cs, W |-> w, Pre |-> pre, Ow |-> ow, FaultChunk |-> f, EmptyCentre |-> ec,
                        Where |-> wh, Kill |-> kl, Buf |-> bs]
-        /\ mpc = "start" /\ wpc = "notstarted" /\ c = 1 /\ pending = {} /\ q = <<>>
-        /\ file = [pp \in 0..(NP - 1) |-> {}] /\ buf = [pp \in 0..(NP - 1) |-> {}]
-        /\ dir = cfg.Pre /\ ids = (cfg.Pre = "old")
-        /\ wexit = 0 /\ outcome = "none" /\ loaded = "none" /\ werr = FALSE
+             /\ CfgOK(cfg)
+        /\ InitRest
 
 (* CatalogWriter.__init__: what happens to the path.  Returns the new dir
    state or "ERR" when it raises. *)
